@@ -21,6 +21,8 @@ import (
 	"fmt"
 	"io"
 	"strings"
+	"unicode"
+	"unicode/utf16"
 )
 
 type token int
@@ -770,12 +772,45 @@ func (t *tokenizer) readEscapedChar(isClob bool) (rune, error) {
 		if isClob {
 			return 0, t.invalidChar('u')
 		}
-		return t.readHexEscapeSeq(4)
+		r, err := t.readHexEscapeSeq(4)
+		if err != nil {
+			return 0, err
+		}
+		if utf16.IsSurrogate(r) {
+			return t.readLowSurrogate(r)
+		}
+		return r, nil
 	case 'x':
 		return t.readHexEscapeSeq(2)
 	}
 
 	return 0, &SyntaxError{fmt.Sprintf("bad escape sequence '\\%c'", c), t.pos - 2}
+}
+
+// readLowSurrogate completes a \uHHHH escape that named a UTF-16 high surrogate:
+// it must be followed at once by a \uHHHH low surrogate, and the pair denotes one code point.
+func (t *tokenizer) readLowSurrogate(high rune) (rune, error) {
+	start := t.pos
+	if high < 0xDC00 {
+		c1, err := t.read()
+		if err != nil {
+			return 0, err
+		}
+		c2, err := t.read()
+		if err != nil {
+			return 0, err
+		}
+		if c1 == '\\' && c2 == 'u' {
+			low, err := t.readHexEscapeSeq(4)
+			if err != nil {
+				return 0, err
+			}
+			if r := utf16.DecodeRune(high, low); r != unicode.ReplacementChar {
+				return r, nil
+			}
+		}
+	}
+	return 0, &SyntaxError{"unpaired surrogate in escape sequence", start - 6}
 }
 
 func (t *tokenizer) readHexEscapeSeq(length int) (rune, error) {
